@@ -136,6 +136,30 @@ def c18(thorough):
         runs += 1
         if r is not None or left:
             probs.append('exhaust(iter(%r)): returned %r, left unconsumed %r' % (vals, r, left))
+    # sets, frozensets and dict views are iterables like any other: source order is THEIR iteration order, and
+    # elements need not be orderable; None is an element like any other for a callable condition
+    for source in ({8, 1}, frozenset({8, 1, 16}), {1, 'a', None}, {'k2': 0, 'k1': 1}.keys()):
+        order = list(source)
+        flags = [i % 2 == 0 for i in range(len(order))]
+        runs += 1
+        try:
+            a, b = split(source, flags)
+            got = (list(a), list(b))
+        except BaseException as e:  # noqa
+            got = e
+        exp = ([x for x, f_ in zip(order, flags) if f_], [x for x, f_ in zip(order, flags) if not f_])
+        if got != exp:
+            probs.append('split(%r, %r) -> %r, expected %r (iteration order of the source)' % (source, flags, got, exp))
+    seen_by_pred = []
+
+    def is_none(x):
+        seen_by_pred.append(x)
+        return x is None
+    a, b = split([3, None, 0, None, 'x'], is_none)
+    got = (list(a), list(b))
+    runs += 1
+    if got != ([None, None], [3, 0, 'x']) or seen_by_pred != [3, None, 0, None, 'x']:
+        probs.append('split([3, None, 0, None, "x"], lambda x: x is None) -> %r, predicate saw %r' % (got, seen_by_pred))
     # a failure while pulling is the caller's to see, whatever its class; what came before it has been pulled
     for exc_cls in (TypeError, ValueError, KeyError, StopAsyncIteration, KeyboardInterrupt):
         pulled = []
@@ -292,6 +316,17 @@ def c19(thorough):
                     pass
                 except BaseException as e:  # noqa
                     probs.append('string without separator raised %r' % (e,))
+    # every item counts: an empty string is a string without the separator, an empty tuple is not a pair
+    for items, exp in ((['a=1', '', 'b=2'], ValueError), ([''], ValueError), (['a=1', ()], (TypeError, ValueError)),
+                       ([('k', '')], {'k': ''}), (['='], {'': ''})):
+        runs += 1
+        try:
+            got = parse_to_dict(items)
+        except BaseException as e:  # noqa
+            got = type(e)
+        ok = (got == exp) if isinstance(exp, dict) else (isinstance(got, type) and issubclass(got, exp))
+        if not ok:
+            probs.append('parse_to_dict(%r) -> %r, expected %r' % (items, got, exp))
     # keys and values that are not strings pass through untouched, with parse_keys on and off, in every input shape
     class K:
         def __repr__(self):
